@@ -3,7 +3,10 @@
 
 package node
 
-import "github.com/youzan/ZanRedisDB/raft"
+import (
+	"github.com/youzan/ZanRedisDB/raft"
+	"github.com/youzan/ZanRedisDB/raft/raftpb"
+)
 
 // verifPoint marks a named point on the persist / apply / snapshot / restart path.
 // Without the build tag `verif` it is an empty, inlineable stub.
@@ -11,3 +14,9 @@ func verifPoint(name string) {}
 
 // verifReady tells the hooks what kind of Ready processReady is working on.
 func verifReady(isNewLeader bool, rd *raft.Ready) {}
+
+// verifWalRead sees the entries the WAL returned at restart, before replayWAL uses them.
+func verifWalRead(ents []raftpb.Entry) {}
+
+// verifReplayed sees raft's storage after the WAL was replayed into it.
+func verifReplayed(rs raft.IExtRaftStorage) {}
